@@ -665,13 +665,17 @@ func (tb *TermBank) Select(arr, idx *Term) *Term {
 	return tb.App("select", vs, arr, idx)
 }
 
+// isAddrConst: names of freshly allocated objects (&...) and of package-level variables (g$...):
+// pairwise distinct, non-nil addresses.
+func isAddrConst(s string) bool { return strings.HasPrefix(s, "&") || strings.HasPrefix(s, "g$") }
+
 func distinctLits(a, b *Term) bool {
 	if a.kind == kLit && b.kind == kLit && a.atom != b.atom {
 		return true
 	}
 	// freshly allocated references are pairwise distinct and distinct from null
 	if a.kind == kConst && b.kind == kConst && a != b && a.sort == SRef {
-		af, bf := strings.HasPrefix(a.atom, "&"), strings.HasPrefix(b.atom, "&")
+		af, bf := isAddrConst(a.atom), isAddrConst(b.atom)
 		if af && bf {
 			return true
 		}
@@ -1042,7 +1046,7 @@ func (tb *TermBank) Script(asserts []*Term, wantModel bool) string {
 	// freshly allocated references are pairwise distinct and non-null (the simplifier relies on it)
 	var frefs []*Term
 	for _, t := range order {
-		if t.kind == kConst && t.sort == SRef && (strings.HasPrefix(t.atom, "&") || t.atom == "null") {
+		if t.kind == kConst && t.sort == SRef && (isAddrConst(t.atom) || t.atom == "null") {
 			frefs = append(frefs, t)
 		}
 	}
